@@ -198,8 +198,10 @@ class HObj:
 
 
 class HList:
-    def __init__(self, items: Optional[List[Value]] = None):
+    def __init__(self, items: Optional[List[Value]] = None, oneshot: bool = False):
         self.items: List[Value] = list(items or [])
+        # an iterator (itertools.chain, iter(), a generator expression, map, filter): what has been taken from it is gone
+        self.oneshot = oneshot
 
     def __repr__(self):
         return repr(self.items)
